@@ -1077,10 +1077,19 @@ impl<'de> serde::de::Visitor<'de> for ParsedValueSeed<'_> {
         }
         let ranges = Ranges::from_serde_seq(map, self)?;
 
+        // only a type was given: `["i8"]`
+        let mut is_empty = true;
+        let _ = ranges.try_for_each_value::<_, core::convert::Infallible>(|_| {
+            is_empty = false;
+            Ok(())
+        });
+
         let (invalid_fallback, fallback_count, should_have_fallback) =
             ranges.check_deserialization();
 
-        if invalid_fallback {
+        if is_empty {
+            Err(serde::de::Error::custom(Error::EmptyRange))
+        } else if invalid_fallback {
             Err(serde::de::Error::custom(Error::InvalidFallback))
         } else if fallback_count > 1 {
             Err(serde::de::Error::custom(Error::MultipleFallbacks))
